@@ -241,7 +241,8 @@ SyncRules(s, e) ==
       bads == {i \in DOMAIN fs : fs[i].strw # fs[i].got}
   IN (IF badc # {} /\ ~s.fault THEN <<B("C12", "column-width", e, ToString(badc))>> ELSE <<>>)
      \o (IF badu # {} THEN <<B("C12", "plain-width", e, ToString({fs[i].d : i \in badu}))>> ELSE <<>>)
-     \o (IF bads # {} THEN <<B("C07", "decorator-width-report", e, ToString({fs[i].d : i \in bads}))>> ELSE <<>>)
+     \* (for a synchronised decorator that is C12 as well: the column is as wide as the strings in it are on the screen)
+     \o (IF bads # {} THEN <<B(IF \E i \in bads : fs[i].sync THEN "C07,C12" ELSE "C07", "decorator-width-report", e, ToString({fs[i].d : i \in bads}))>> ELSE <<>>)
 
 (* C12 on the text itself: the decorated sections of the rows line up.  The
    prepend section of a row is as wide as the widths handed to its decorators. *)
@@ -590,7 +591,8 @@ Check(s, e) ==
             THEN <<B(IF s.fault THEN "C16,C15" ELSE "C16", "goroutine-leak", e, "a goroutine spins: " \o ToString(e.goroutines))>>
             ELSE <<B(ps, "hang" \o why, e, ToString(<<e.kind, e.pending>>))>>
     [] e.ev = "panic" ->
-         <<B("C02", "panic" \o (IF s.detached # {} /\ e.closedsend THEN "/detached-push" ELSE ""), e, e.msg)>>
+         \* (C15: "there is no panic" once a filler, an extender or the output has returned an error)
+         <<B(IF s.fault THEN "C02,C15" ELSE "C02", "panic" \o (IF s.detached # {} /\ e.closedsend THEN "/detached-push" ELSE ""), e, e.msg)>>
     \* C09: a refill mark never exceeds what the counter can have been when the mark was set
     [] e.ev = "fill" ->
          IF e.refill > (IF e.b \in DOMAIN s.curUB THEN s.curUB[e.b] ELSE 0)
